@@ -310,9 +310,7 @@ class WalletStorage:
             mode = os.stat(self.path).st_mode
         else:
             mode = stat.S_IREAD | stat.S_IWRITE
-        try:
-            os.rename(temp_path, self.path)
-        except Exception:  # pylint: disable=broad-except
-            os.remove(self.path)
-            os.rename(temp_path, self.path)
+        # atomic on every platform; os.rename refuses to overwrite on Windows and the old fallback
+        # (remove, then rename) left no wallet file at all if the process died in between
+        os.replace(temp_path, self.path)
         os.chmod(self.path, mode)
